@@ -42,11 +42,11 @@ TOOLCHAIN = "/root/go/pkg/mod/golang.org/toolchain@v0.0.1-go1.24.12.linux-amd64/
 # tscale multiplies the thorough tier's case counts so that every thorough run is a few minutes
 # of 16-core work; qscale does the same for the quick tier (10-40 s of 16-core work per property)
 PROPS = {
-    "C01": {"tscale": 20}, "C02": {"tscale": 40, "qscale": 40}, "C03": {}, "C04": {"race_in_thorough": True}, "C05": {},
-    "C06": {"tscale": 20, "qscale": 15}, "C07": {"tscale": 40, "qscale": 40}, "C08": {"race_in_thorough": True, "qscale": 6},
+    "C01": {"tscale": 20, "race_job": "concurrent-serialisation"}, "C02": {"tscale": 40, "qscale": 40}, "C03": {}, "C04": {"race_in_thorough": True}, "C05": {},
+    "C06": {"tscale": 20, "qscale": 15}, "C07": {"tscale": 40, "qscale": 40, "race_job": "concurrent-hashing"}, "C08": {"race_in_thorough": True, "qscale": 6},
     "C09": {"tscale": 30, "qscale": 20}, "C10": {"tscale": 40, "qscale": 12}, "C11": {"tscale": 3, "qscale": 2},
     "C12": {"tscale": 40, "qscale": 80}, "C13": {"tscale": 40, "qscale": 20}, "C14": {"tscale": 60, "qscale": 80},
-    "C15": {"tscale": 60, "qscale": 80, "virtual_clock_job": "lifetime"}, "C16": {"qscale": 4}, "C17": {"tscale": 12, "qscale": 15}, "C18": {"race": True},
+    "C15": {"tscale": 60, "qscale": 80, "virtual_clock_job": "lifetime"}, "C16": {"qscale": 4}, "C17": {"tscale": 12, "qscale": 15, "race_job": "concurrent-accessors"}, "C18": {"race": True},
     "C19": {"tscale": 30, "qscale": 60}, "C20": {"qscale": 2},
 }
 
@@ -222,6 +222,11 @@ def check(prop, tier, seed, nshards):
         # a second worker built with the runtime's virtual clock runs one job (first, so that the
         # distinct-case count below is taken from the main build's output)
         builds.insert(0, ("virtual-clock", False))
+    if cfg.get("race_job") and not race and not (tier == "thorough" and cfg.get("race_in_thorough")):
+        # the property's own small concurrent job is also run under the race detector (the same
+        # worker-race binary C18 uses): a window of a few instructions that result comparison has to
+        # hit by luck is a certain report there
+        builds.insert(0, ("race-job", True))
     known = load_known()
     evidence_path = os.path.join(EVID, f"{prop}.json")
     os.makedirs(os.path.dirname(evidence_path), exist_ok=True)
@@ -251,6 +256,8 @@ def check(prop, tier, seed, nshards):
         extra_env = {}
         if bname == "virtual-clock":
             extra_env["VERIF_ONLY_JOB"] = cfg["virtual_clock_job"]
+        if bname == "race-job":
+            extra_env["VERIF_ONLY_JOB"] = cfg["race_job"]
         if brace:
             extra_env["GORACE"] = f"halt_on_error=0 log_path={outdir}/race history_size=5"
         rc = run_shards(worker, prop, tier, seed, nshards, outdir, limit, extra_env)
